@@ -6,6 +6,7 @@ Anchors (under `/repo/source/gatery`):
 * `hlim/Clock.cpp:66-92`    `getMinResetTime`, `getMinResetCycles`
 * `hlim/Clock.cpp:105-168`  `inheritsClockPinSource`, `getClockPinSource`, `inheritsResetPinSource`, `getResetPinSource`
 * `hlim/Clock.cpp:253-256`  `DerivedClock::absoluteFrequency = parent->absoluteFrequency() * multiplier`
+* `hlim/Clock.cpp:243-256`, `frontend/Clock.cpp:190-229` `DerivedClock::DerivedClock`, `Clock::applyConfig` (`deriveDecl`)
 * `hlim/postprocessing/ClockPinAllocation.cpp:33-96` `determineRelevantClocks`; `:99-157` `extractClockPins`
 * `simulation/ReferenceSimulator.cpp:115-145` `Program::allocateClocks`
 
@@ -30,6 +31,26 @@ structure ClockDecl where
   deriving Repr, Inhabited, DecidableEq
 
 abbrev ClockTree := List ClockDecl
+
+/-- the fields of a frontend `ClockConfig` that a derived clock may override (`std::optional`, `none` = not given) -/
+structure ClockCfg where
+  name : Option String := none
+  resetName : Option String := none
+  trig : Option Trigger := none
+  phaseSync : Option Bool := none
+  rstType : Option ResetType := none
+  activeHigh : Option Bool := none
+  deriving Repr, Inhabited, DecidableEq
+
+/-- `Clock::deriveClock(cfg)`: `DerivedClock::DerivedClock(parent)` (`hlim/Clock.cpp:243-256`) copies name, reset name, trigger event,
+    phase synchronisation and the register attributes of the parent, then `frontend/Clock.cpp:190-229` (`applyConfig`) overrides the
+    fields the configuration gives. -/
+def deriveDecl (parentIdx : Nat) (parent : ClockDecl) (mul : Rat) (cfg : ClockCfg) : ClockDecl :=
+  { parent := some parentIdx, freqOrMul := mul,
+    name := cfg.name.getD parent.name, resetName := cfg.resetName.getD parent.resetName,
+    trig := cfg.trig.getD parent.trig, phaseSync := cfg.phaseSync.getD parent.phaseSync,
+    rstType := cfg.rstType.getD parent.rstType, activeHigh := cfg.activeHigh.getD parent.activeHigh,
+    hasNodes := false }
 
 namespace ClockTree
 variable (cs : ClockTree)
